@@ -997,7 +997,7 @@ func (tr *translator) call(e *ast.CallExpr) string {
 				return "(bits_Len64 " + tr.expr(e.Args[0]) + ")"
 			case "math.Float32bits", "math.Float64bits", "math.Float32frombits", "math.Float64frombits":
 				return tr.expr(e.Args[0])
-			case modPath + "/meta.NewError":
+			case modPath + "/meta.NewError", "errors.New", "fmt.Errorf":
 				return "Err_NewError"
 			case "unicode/utf8.ValidString":
 				return "(utf8_valid " + tr.expr(e.Args[0]) + ")"
@@ -1025,6 +1025,11 @@ func (tr *translator) call(e *ast.CallExpr) string {
 	}
 	if threaded {
 		fail(e, "state-threaded call %s used inside an expression", srcOf(e))
+	}
+	if tr.abs != nil && recvX != nil {
+		if b, _, isBase := tr.absPath(recvX); isBase && !tr.translatable(tr.typeOf(recvX)) {
+			fail(e, "call of the translated method %s on the abstract object %s (translate the caller in a module where the callee is not listed)", srcOf(e.Fun), b)
+		}
 	}
 	if tr.optFuncs[name] {
 		if tr.abs == nil || !tr.abs.allowOpt {
